@@ -15,6 +15,7 @@
 package eventlog
 
 import (
+	"bytes"
 	"encoding/binary"
 	"fmt"
 	"io"
@@ -80,23 +81,6 @@ func (b *Uint32SizedArray) Unmarshal(r io.Reader) error {
 	return readSizedArray(r, &size, &b.Data)
 }
 
-func makeSized[T any](size any) ([]T, error) {
-	switch s := size.(type) {
-	case *byte:
-		if *s == 0 {
-			return nil, nil
-		}
-		return make([]T, *s), nil
-	case *uint32:
-		if *s == 0 {
-			return nil, nil
-		}
-		return make([]T, *s), nil
-	default:
-		return nil, fmt.Errorf("unsupported array size type %T", size)
-	}
-}
-
 // Uint32SizedArrayT represents a uint32 sized array of a given type, with elements that are
 // serializable.
 type Uint32SizedArrayT[T Serializable] struct {
@@ -118,32 +102,63 @@ func (d *Uint32SizedArrayT[T]) Unmarshal(r io.Reader) error {
 		d.Array = nil
 		return nil
 	}
-	d.Array = make([]T, size)
-	for i := range d.Array {
-		d.Array[i] = d.Array[i].Create().(T)
-		if err := d.Array[i].Unmarshal(r); err != nil {
+	// The count is untrusted: grow the array as elements are actually decoded.
+	d.Array = nil
+	for i := uint32(0); i < size; i++ {
+		var zero T
+		elt := zero.Create().(T)
+		if err := elt.Unmarshal(r); err != nil {
 			return fmt.Errorf("failed to unmarshal %T element %d: %v", []T{}, i, err)
 		}
+		d.Array = append(d.Array, elt)
 	}
 	return nil
+}
+
+// readExactly reads n bytes with io.ReadFull's error convention. The size is declared by untrusted
+// input, so beyond a small threshold the buffer grows with the data that actually arrives instead of
+// being allocated up front.
+func readExactly(r io.Reader, n uint64) ([]byte, error) {
+	const upfront = 64 * 1024
+	if n <= upfront {
+		buf := make([]byte, n)
+		got, err := io.ReadFull(r, buf)
+		return buf[:got], err
+	}
+	var buf bytes.Buffer
+	got, err := io.CopyN(&buf, r, int64(n))
+	if err == io.EOF && got > 0 {
+		err = io.ErrUnexpectedEOF
+	}
+	return buf.Bytes(), err
 }
 
 func readSizedArray(r io.Reader, size any, data *[]byte) error {
 	if err := binary.Read(r, binary.LittleEndian, size); err != nil {
 		return fmt.Errorf("failed to read array size as %T: %w", size, err)
 	}
-	result, err := makeSized[byte](size)
-	if err != nil {
-		return err
+	var n uint64
+	switch s := size.(type) {
+	case *byte:
+		n = uint64(*s)
+	case *uint32:
+		n = uint64(*s)
+	default:
+		return fmt.Errorf("unsupported array size type %T", size)
+	}
+	if n == 0 {
+		*data = nil
+		return nil
 	}
 	// io.Reader.Read may legally return fewer bytes than asked for (and bytes.Reader returns
 	// io.EOF for an empty read at the end): the array is only complete when all of it was read.
-	if n, err := io.ReadFull(r, result); err != nil {
+	result, err := readExactly(r, n)
+	if err != nil {
 		if err == io.EOF {
 			// The size prefix was consumed, so running out of input here is never a clean end.
 			err = io.ErrUnexpectedEOF
 		}
-		return fmt.Errorf("failed to read array sized %d (read %d bytes): %w", len(result), n, err)
+		return fmt.Errorf("failed to read array sized %d (read %d bytes): %w", n, len(result), err)
 	}
 	*data = result
 	return nil
